@@ -48,7 +48,7 @@ func roundTrip(res *opResult, r *rng, v interface{ Marshal() ([]byte, error) }, 
 }
 
 func unitOp(res *opResult, kind int, seed uint64) {
-	r := &rng{s: seed}
+	r := &rng{s: seed, narrow: seed&narrowBit != 0}
 	switch kind {
 	case 0:
 		h := rtcp.Header{Padding: r.chance(2), Count: uint8(r.intn(40)), Type: rtcp.PacketType(r.u8()), Length: r.u16()}
